@@ -205,10 +205,11 @@ PROPERTIES = {
                 assumptions=["Go map iteration order is modelled as an arbitrary permutation chosen per range statement (maps with more than 4 entries iterate in insertion order)",
                              "the generators start no goroutines and read no clock/environment on these paths (such a call would abort the path as unsupported)",
                              "TS and OpenAPI generators, byte rendering by libopenapi/yaml and plugin parameters are not yet part of this check"]),
-    "C16": dict(G_HTTPGEN, load_pkgs=["./internal/httpgen", "./cmd/protoc-gen-openapiv3"], replay_timeout=240,
+    "C16": dict(G_HTTPGEN, load_pkgs=["./internal/httpgen", "./cmd/protoc-gen-openapiv3", "./internal/openapiv3"], replay_timeout=240,
                 overlay={"internal/httpgen/zz_verif_c16.go": "harness/c16/c16_termination.go", "internal/httpgen/zz_verif_c16m.go": "harness/c16/c16_mock_maps.go",
                          "internal/httpgen/zz_verif_c20w.go": "harness/c20/c20_world.go",
-                         "cmd/protoc-gen-openapiv3/zz_verif_c16.go": "harness/c16main/c16_main.go"},
+                         "cmd/protoc-gen-openapiv3/zz_verif_c16.go": "harness/c16main/c16_main.go",
+                         "internal/openapiv3/zz_verif_c16o.go": "harness/c16/c16_openapi_any.go", "internal/openapiv3/zz_verif_c06w.go": "harness/c06/c06_wire.go"},
                 harnesses=[dict(func="VerifC16Traversals", reach=["C16/traversals/decided"], quick=dict(budget=300, parts=8, flags=["-maxpaths", "100000"]), thorough=dict(budget=900, parts=16, flags=["-maxpaths", "400000"])),
                            dict(func="VerifC16Mock", reach=["C16/mock/decided", "C16/mock/recursive"], quick=dict(budget=300, parts=8, flags=["-maxpaths", "100000"]), thorough=dict(budget=900, parts=16, flags=["-maxpaths", "400000"])),
                            dict(func="VerifC16DeepDiamond", reach=["C16/diamond/decided"], quick=dict(budget=100), thorough=dict(budget=300)),
@@ -216,6 +217,8 @@ PROPERTIES = {
                            dict(func="VerifC16NameKernelsSnake", reach=["C16/kernels/snake"], quick=dict(budget=200), thorough=dict(budget=600)),
                            dict(func="VerifC16NameKernelsHeader", reach=["C16/kernels/header"], quick=dict(budget=200), thorough=dict(budget=600)),
                            dict(func="VerifC16NameKernelsCamel", reach=["C16/kernels/camel"], quick=dict(budget=200), thorough=dict(budget=600)),
+                           dict(func="VerifC16OpenAPIAnswersForAnyAnnotation", pkgpath=MOD + "/internal/openapiv3", test_pkg="./internal/openapiv3", test_pkgname="openapiv3",
+                                reach=["C16/openapi-any/decided"], quick=dict(budget=200, parts=4), thorough=dict(budget=600, parts=8)),
                            dict(func="VerifC16MainSetup", pkgpath=MOD + "/cmd/protoc-gen-openapiv3", test_pkg="./cmd/protoc-gen-openapiv3", test_pkgname="main",
                                 reach=["C16/main/setup-error-returned", "C16/main/setup-ok"], quick=dict(budget=100), thorough=dict(budget=300))],
                 bounds_text={"quick": "message graphs: 3 messages x 2 message-typed fields each with arbitrary targets (direct and mutual recursion included), second edge singular or repeated; budgets: tscommon 60k, generators 3M executed SSA instructions and call depth 120; deep diamond: 16 levels x 2 references; name kernels: strings <= 4-5 over [ab_], [aAX-], [aAZ0]; openapiv3 main: Options.New stubbed with an arbitrary (plugin | error) result"},
